@@ -111,9 +111,17 @@ fn main() {
                 p.set_language(&l.language).unwrap();
                 let mut tree = p.parse(&bytes, None).unwrap();
                 println!("old: {}", vengine::model::xtree::XTree::build(&tree).render(&l.language, 400));
+                if let Ok(f) = std::env::var("VERIF_DOT") {
+                    let file = std::fs::File::create(&f).unwrap();
+                    tree.print_dot_graph(&file);
+                }
                 let mut text = vengine::model::text::Text::new(bytes);
                 let ie = text.apply(&vengine::model::text::Edit { start, old_end, inserted: ins });
                 tree.edit(&ie);
+                if let Ok(f) = std::env::var("VERIF_DOT") {
+                    let file = std::fs::File::create(format!("{f}.edited")).unwrap();
+                    tree.print_dot_graph(&file);
+                }
                 p.set_logger(Some(Box::new(|ty, msg| {
                     println!("  {} {msg}", if ty == tree_sitter::LogType::Lex { "lex  " } else { "parse" });
                 })));
